@@ -29,7 +29,10 @@ jobs.json = {"so": path, "jobs": [ {"id":…, "engines":[option, …], "scripts"
      | {"obj":i,"call":"drop"}   (engine object i loses its last reference and is garbage-collected; "new" re-creates it)
      | {"obj":i,"call":"roundtrip","script":k,"to":m,"route":"dict"|"file"|"traj_dict"|"traj_file"}
        (script m := script k — or the script stored in the last trajectory — after rdscript_to_dict/from_dict or save/load)
+     | {"obj":i,"call":"mutate_out","what":"script_units"|"script_system"|"script_tsample"|"system_state"}
+       (the CALLER modifies the object returned by the last get_output / simulate in place: its .script or its .system)
      drive: "via":"iterate_n" drives by iterate_n(1) instead of iterate()
+  get_output / simulate report "snap": a deep snapshot (fingerprints of .script, of .system, units of data and times) taken at once
   scripts built without a seed (rng_seed None): the harness never reads rng_seed before setup / simulate_script
   setup / simulate also report "script_changed": the fields of the caller's RDScript that differ after the call
   setup / simulate also report "init": what was handed to engineexport_initialize_{grid,graph} (observed by wrapping the
@@ -277,6 +280,15 @@ def main():
         h = hashlib.sha1(t.tobytes() + b"|" + d.tobytes()).hexdigest()
         r = {"nt": int(t.size), "nd": int(d.size), "hash": h, "nsamples": int(o.nsamples()), "nspecies": int(o.nspecies()),
              "ncells": int(o.ncells()), "seed": o.script.rng_seed if o.script is not None else None}
+        try:
+            snap = {"data_units": str(o.data.units), "t_units": str(o.t.units),
+                    "system_state": hashlib.sha1(np.ascontiguousarray(np.asarray(o.system.state.value, dtype=float)).tobytes()).hexdigest() + str(o.system.state.units),
+                    "system_size": [int(o.system.space.size()), len(o.system.network.species)],
+                    "script": script_fp(o.script) if o.script is not None else None,
+                    "script_system_size": [int(o.script.system.space.size()), len(o.script.system.network.species)] if o.script is not None else None}
+            r["snap"] = snap
+        except Exception as ex:  # noqa
+            r["snap"] = {"error": type(ex).__name__}
         if full:
             r["t"] = [float(v) for v in t]
             r["data"] = [float(v) for v in d]
@@ -441,6 +453,21 @@ def main():
                             e.run(st_[1])
                         n += 1
                     res["ret"] = {"ncalls": n, "T": float(lib.engineexport_get_time())}
+                elif k == "mutate_out":
+                    what = c.get("what", "script_units")
+                    o = last_out
+                    if what == "script_units":
+                        o.script.units_system = UnitsSystem(space="mm", time="h", quantity="mol")
+                    elif what == "script_tsample":
+                        o.script.t_sample = [0.0]
+                    elif what == "script_system":
+                        small = st.rdsystem_from_dict({"network": {"species": [{"label": "Z", "density": 1}]},
+                                                       "space": {"type": "grid", "w": 1, "h": 1, "d": 1}})
+                        o.script.system = small
+                    elif what == "system_state":
+                        v = np.asarray(o.system.state.value, dtype=float)
+                        o.system.state = st.UnitArray(v * 0.0 + 7.0 + np.arange(v.size), o.system.state.units)
+                    res["ret"] = None
                 elif k == "edit_script":
                     sc = scripts[c["script"]]
                     before = sc.rng_seed
